@@ -73,7 +73,7 @@ P_BOUNCE = gen.profile(
 
 def cases(tier, seed):
   out = []
-  n = 40 if tier == "quick" else 700
+  n = 40 if tier == "quick" else 240
   for i in range(n):
     integ = INTEGRATORS[i % 4]
     ts = TIMESTEPS[(i // 4) % 5]
@@ -81,7 +81,7 @@ def cases(tier, seed):
     if tier == "quick":
       horizon = 200
     else:
-      horizon = (2000, 2000, 20000, 500)[(i // 20) % 4]
+      horizon = (2000, 500, 500, 20000, 500, 2000, 500, 500)[(i * 3 + i // 8 + i // 40) % 8]  # mixes with integrator / timestep
     out.append({"id": f"{kind}{seed}_{i}", "kind": kind, "seed": seed * 100000 + i, "integrator": integ, "timestep": ts, "horizon": horizon, "underflow": int(i % 8 == 5), "weight": max(1, horizon // 200) * (2 if integ == "RK4" else 1)})
   return out
 
